@@ -12,22 +12,29 @@ using namespace tulz::rwp;
 static Resource R;
 static int readers, writers;                       // C01 oracle
 static int finished;                               // workers that completed their program
+static int w_busy;                                 // writers between issuing lockWrite() and the return of unlockWrite() (C12 oracle)
 #ifdef ORACLE_C03
 enum { IDLE, ISSUED, PARKED, GRANTED };
 static int rq_state[NW], rq_kind[NW];              // current request of worker i (0 read, 1 write)
 static unsigned rq_issue_t[NW], rq_park_t[NW], clk;
 #endif
+static int cur_kind[4];                            // kind of the request a worker is currently issuing
 static int barrier, w_holds, parked;               // C12(b): readers queue behind a writer, are admitted together and rendezvous inside the read section
 extern "C" void vf_on_park(unsigned t) {           // first cv_wait of a lock call of thread t
 #ifdef ORACLE_C03
   if (t < NW && rq_state[t] == ISSUED) { rq_state[t] = PARKED; rq_park_t[t] = ++clk; }
 #endif
   parked++;
+#ifdef ORACLE_C12
+  // a read request is granted without waiting whenever no write request is active or waiting
+  if (t < NW && cur_kind[t] == 0) __vf_check(w_busy > 0, "C12: a reader parks although no write request is active or waiting");
+#endif
 #ifdef C12_NOPARK
   __vf_check(false, "C12: a reader parks although no writer is active or waiting");
 #endif
 }
 static inline void issue(int i, int k) {
+  cur_kind[i] = k; if (k) w_busy++;
 #ifdef ORACLE_C03
   rq_state[i] = ISSUED; rq_kind[i] = k; rq_issue_t[i] = ++clk;
 #endif
@@ -64,12 +71,12 @@ static inline void section(int i, int k) {
 template<int I, int K, bool G> static inline void pair() {
   issue(I, K);
   if constexpr (G) {
-    if constexpr (K) { WriteLock l(R); granted(I, K); section(I, K); leaving(I, K); }
+    if constexpr (K) { { WriteLock l(R); granted(I, K); section(I, K); leaving(I, K); } w_busy--; }
     else { ReadLock l(R); granted(I, K); section(I, K); leaving(I, K); }
   } else {
     if constexpr (K) R.lockWrite(); else R.lockRead();
     granted(I, K); section(I, K); leaving(I, K);
-    if constexpr (K) R.unlockWrite(); else R.unlockRead();
+    if constexpr (K) { R.unlockWrite(); w_busy--; } else R.unlockRead();
   }
 }
 template<int I, int P> static inline void prog() {
@@ -90,7 +97,11 @@ template<int I, int P> static inline void prog() {
 #define P3 0
 #endif
 extern "C" unsigned vf_no_park;
+extern "C" void __vf_hb_track(void *p);
 extern "C" void vf_thread(int i) {
+#ifdef HB_MONITOR
+  __vf_hb_track(&R);   // C15: every byte of the Resource object is a candidate for the watched location
+#endif
 #ifdef C12_BARRIER
   // thread 0: writer holds the lock until BARRIER readers are parked behind it; threads 1..: readers that need each other inside the section
   if (i == 0) { R.lockWrite(); granted(0, 1); w_holds = 1; __vf_wait_until(&parked, BARRIER); leaving(0, 1); R.unlockWrite(); }
